@@ -380,17 +380,52 @@ def check_abuf(ctx, prog):
         b, i, c = sites[0]
         nb = canon(c["args"][1])
         ok = False
+        narrow = None
+
+        def through_local(e):
+            """text of e; a local with a single definition stands for that definition - unless it is narrower than
+            64 bits, which truncates the free space (returned as (text, narrowing-note))"""
+            se = strip(e)
+            if isinstance(se, dict) and se.get("k") == "ref" and se.get("dk") == "local":
+                defs = []
+                for b2, i2, e2 in fn.elements():
+                    if e2.get("k") == "decl":
+                        defs += [v["init"] for v in e2.get("vars", []) if v.get("id") == se.get("id") and v.get("init") is not None]
+                    for y in walk(e2):
+                        if y.get("k") == "asg" and strip(y["a"]).get("k") == "ref" and strip(y["a"]).get("id") == se.get("id"):
+                            defs.append(y["b"] if y.get("op") == "=" else None)
+                if len(defs) == 1 and defs[0] is not None:
+                    bits = fn.type(se.get("t")).get("bits", 0)
+                    return canon(defs[0]), ("`%s` is a %d-bit variable" % (se["n"], bits) if bits < 64 else None)
+            return canon(e), None
+
         for d in cfg.dominators(fn).get(b.id, ()):
             cond = fn.blocks[d].cond
-            if cond is not None and cond.get("k") == "bin" and cond.get("op") == "<" and canon(cond["b"]) == nb:
-                t = canon(cond["a"])
-                if "size_allocated" in t and "size_used" in t and "-" in t and fn.blocks[d].succs[1] is not None \
-                        and (fn.blocks[d].succs[1] == b.id or fn.blocks[d].succs[1] in cfg.dominators(fn).get(b.id, ())):
-                    tb = fn.blocks[fn.blocks[d].succs[0]]
-                    if any(macro_of(e.get("b")) == "NC_EINSUFFBUF" for e in tb.elems if e.get("k") == "asg"):
-                        ok = True
+            if cond is None or cond.get("k") != "bin" or cond.get("op") not in ("<", ">") or fn.blocks[d].succs[1] is None:
+                continue
+            if not (fn.blocks[d].succs[1] == b.id or fn.blocks[d].succs[1] in cfg.dominators(fn).get(b.id, ())):
+                continue
+            tb = fn.blocks[fn.blocks[d].succs[0]]
+            if not any(macro_of(e.get("b")) == "NC_EINSUFFBUF" for e in tb.elems if e.get("k") == "asg"):
+                continue
+            small, big = (cond["a"], cond["b"]) if cond["op"] == "<" else (cond["b"], cond["a"])
+            (ts, n1), (tb_, n2) = through_local(small), through_local(big)
+            # free < nbytes   or   allocated < used + nbytes
+            if canon(big) == nb:
+                tb_, n2 = nb, None
+            form1 = "size_allocated" in ts and "size_used" in ts and " - " in ts and tb_ == nb
+            form2 = "size_allocated" in ts and "size_used" not in ts and "size_used" in tb_ and nb in tb_ and " + " in tb_
+            if form1 or form2:
+                if n1 or n2:
+                    narrow = n1 or n2
+                else:
+                    ok = True
         if ok:
             ctx.ok("R4.abuf", name + ":EINSUFFBUF", "size_allocated - size_used < %s rejects before the allocation" % nb)
+        elif narrow:
+            ctx.fail("R4.abuf", name, "EINSUFFBUF", "the free space of the attached buffer is compared through a narrower variable (%s): with "
+                     "2 GiB or more free the difference wraps and a bput that fits is refused with NC_EINSUFFBUF" % narrow,
+                     fn=fn, line=c.get("l", 0))
         else:
             ctx.fail("R4.abuf", name, "EINSUFFBUF", "ncmpio_abuf_malloc(%s) is not dominated by the test "
                      "`size_allocated - size_used < %s` -> NC_EINSUFFBUF" % (nb, nb), fn=fn, line=c.get("l", 0))
